@@ -502,6 +502,9 @@ def process_file(em, path, report):
         elif re.match(r'(pub )?fn ', h):
             ap = set()
             fb2 = rewrite_body(body, ap)
+            for pat in UNSUPPORTED:
+                if re.search(pat, fb2):
+                    raise ExtractError('unsupported construct %s in %s::%s' % (pat, stem, h.strip().split('(')[0]))
             name = inject_fn(em, stem, vc, h, fb2, False, None)
             applied |= ap
             fns.append(dict(module=stem, fn=name, sha256=sha(body), rules=sorted(ap), body_lines=body.count('\n')))
@@ -533,6 +536,10 @@ def literal_axioms(text):
     out.append('pub broadcast group group_literals { %s }' % names)
     return '\n'.join(out), lits
 
+# views that embed another view's struct
+DEPENDS = {'variance_stabilizing_transformation': ['welford_online', 'echo'], 'vsct': ['welford_online', 'echo'], 'roofing_filter': ['super_smoother', 'echo']}
+STRUCT_OF = {}
+
 def source_files():
     files = sorted(glob.glob(REPO + '/src/pure_functions/*.rs') + glob.glob(REPO + '/src/rolling/*.rs') + glob.glob(REPO + '/src/sliding_windows/*.rs'))
     files = [f for f in files if not f.endswith('mod.rs')]
@@ -540,7 +547,7 @@ def source_files():
     files.sort(key=lambda f: (pri.get(os.path.basename(f), 5), os.path.basename(f)))
     return files
 
-def build(out_path, only=None):
+def build(out_path, only=None, exclude=None):
     report = dict(functions=[], rules_applied=set(), repo=REPO)
     em = Emitter()
     shim = open(os.path.join(VF, 'shim.rs')).read()
@@ -559,6 +566,7 @@ def build(out_path, only=None):
     em.add('pub mod views {')
     stems = []
     report['uncontracted'] = []
+    report['broken'] = {}
     for f in source_files():
         stem = os.path.basename(f)[:-3]
         if not os.path.exists(os.path.join(VF, 'contracts', stem + '.vc')):
@@ -566,12 +574,40 @@ def build(out_path, only=None):
             continue
         if only and stem not in only:
             continue
-        stems.append(process_file(em, f, report))
+        # a view that cannot be extracted (construct outside the rules, lost anchor) is left out together with the views that embed it;
+        # properties that depend on it become undecided (exit 2), the others are unaffected
+        mark = (len(em.lines), dict(em.map), list(em.fnspans), list(em.hint_lines), list(em.uncontracted_fns), len(report['functions']))
+        try:
+            if exclude and stem in exclude:
+                raise ExtractError(exclude[stem])
+            if any(d in report['broken'] for d in DEPENDS.get(stem, [])):
+                raise ExtractError('depends on a view that could not be extracted')
+            stems.append(process_file(em, f, report))
+        except ExtractError as e:
+            em.lines = em.lines[:mark[0]]; em.map = mark[1]; em.fnspans = mark[2]; em.hint_lines = mark[3]; em.uncontracted_fns = mark[4]
+            report['functions'] = report['functions'][:mark[5]]
+            em.add = Emitter.add.__get__(em)
+            report['broken'][stem] = str(e)
     em.add('\n'.join('pub use self::%s::*;' % s for s in stems))
     em.add('} // mod views')
     em.add('pub mod props {')
+    broken_names = set()
+    for b in report['broken']:
+        camel = ''.join(x.capitalize() for x in b.split('_'))
+        broken_names |= {b + '_own', camel + 'Own', camel + '::', camel + '<'}
+        vcb = os.path.join(VF, 'contracts', b + '.vc')
+        if os.path.exists(vcb):
+            m = re.search(r'^== wrapper (\w+)', open(vcb).read(), re.M)
+            if m: broken_names |= {m.group(1) + 'Own', m.group(1) + '::', m.group(1) + '<', re.sub(r'(?<!^)(?=[A-Z][a-z])', '_', m.group(1)).lower() + '_own'}
+            broken_names |= set(re.findall(r'pub open spec fn (\w+)', open(vcb).read()))
+    report['props_skipped'] = []
+    skipped_mods = set()
     for p in sorted(glob.glob(os.path.join(VF, 'props', '*.rs'))):
         stem = os.path.basename(p)[:-3]
+        ptxt = open(p).read()
+        if any(re.search(r'\b' + re.escape(nm), ptxt) for nm in broken_names) or any(('props::%s::' % sk) in ptxt for sk in skipped_mods):
+            report['props_skipped'].append(stem); skipped_mods.add(stem)
+            continue
         em.add('pub mod %s {' % stem)
         em.add('use vstd::prelude::*;\nuse vstd::view::View as SpecView;\nuse std::collections::VecDeque;\n'
                'use crate::shim::*;\nuse crate::shim::View;\nuse crate::lem::*;\nuse crate::alg::*;\nuse crate::views::*;\n'
